@@ -179,10 +179,10 @@ Definition pd_of_series (s : series) : pdt * list cell :=
   | NInt => (PInt64, scells s)
   | NBool => (PBool, scells s)
   | NStr => (PStrDt, scells s)
-  | NObj => match scells s with
-            | [] => (PObject, [])
-            | _ => if forallb is_str (scells s) then (PStrDt, scells s) else (PObject, scells s)
-            end
+  | NObj => (* an object array is inferred: text (with None -> NaN) becomes the str dtype, anything else stays object *)
+            if forallb is_none (scells s) then (PObject, scells s)
+            else if forallb is_str_or_none (scells s) then (PStrDt, map none_to_nan (scells s))
+            else (PObject, scells s)
   end.
 
 (* ------------------------------------------------------------------ model_to_dataframe *)
@@ -393,6 +393,14 @@ Definition from_table (c : mclass) (t : table) : tres fmodel :=
     TOk (mkModel sp (cnames c) vars
                  (mkSeries NStr (repeat (CStr "-") n))
                  (mkSeries NInt (repeat (CInt (-1)) n)))).
+
+(* cls.from_dataframe(data, *args, **kwargs) -> cls(index, *args, **columns, **kwargs): __init__ takes the span as its only
+   positional parameter, so any further positional argument fails at the call (TypeError) before anything is built *)
+Definition from_dataframe_call (nargs : nat) (c : mclass) (t : table) : tres fmodel :=
+  match nargs with O => from_table c t | S _ => TErr TypeError end.
+
+(* what K's table-validation pass evaluates: the cells from_dataframe feeds to astype for one exported series *)
+Definition cast_series (d : ndt) (s : series) : tres (list cell) := cast_all d (snd (pd_of_series s)).
 
 (* ------------------------------------------------------------------ symbols_to_dataframe / dataframe_to_symbols *)
 Definition cell_of_ostr (o : option string) : cell := match o with Some s => CStr s | None => CNone end.
